@@ -191,6 +191,18 @@ theorem deb_scripts_in_control_archive (mtime : Nat) (control md5sums conffiles 
   obtain ⟨l1, l2, l3, l4, l5⟩ := DebCtl.lookup_members mtime control md5sums conffiles triggers scripts
   exact ⟨_, DebCtl.read_members mtime control md5sums conffiles triggers scripts hm hc h5 hf ht hs, l1, l2, l3, l4, l5⟩
 
+/-- **ipk: the same for the control archive ipk.populateControlTar writes** – ./control and ./conffiles always, each
+    of the four maintainer scripts under its slot name iff configured, verbatim, mode 0755, the package mtime -/
+theorem ipk_scripts_in_control_archive (mtime : Nat) (control conffiles : Bytes) (scripts : Bytes → Option Bytes)
+    (hm : mtime < 8 ^ 11) (hc : control.length < 8 ^ 11) (hf : conffiles.length < 8 ^ 11)
+    (hs : ∀ n b, scripts n = some b → b.length < 8 ^ 11) :
+    ∃ ms, Tar.read (Tar.archive (DebCtl.ipkMembers mtime control conffiles scripts)) = some ms
+      ∧ DebCtl.lookup b!"control" ms = some (DebCtl.file b!"control" 0o644 mtime control)
+      ∧ DebCtl.lookup b!"conffiles" ms = some (DebCtl.file b!"conffiles" 0o644 mtime conffiles)
+      ∧ ∀ s ∈ DebCtl.ipkSlots, DebCtl.lookup s.1 ms = (scripts s.1).map (DebCtl.file s.1 s.2 mtime) := by
+  obtain ⟨l1, l2, l3⟩ := DebCtl.lookup_ipkMembers mtime control conffiles scripts
+  exact ⟨_, Tar.read_archive _ (DebCtl.ipkMembers_ok mtime control conffiles scripts hm hc hf hs), l1, l2, l3⟩
+
 /-- the slot names of the byte-level archive are the documented deb slots of the wiring table (C09's `debSlots`) -/
 example : DebCtl.scriptSlots.map (·.1) = [b!"config", b!"postinst", b!"postrm", b!"preinst", b!"prerm", b!"rules", b!"templates"] := by
   decide
